@@ -340,7 +340,8 @@ func Replay(args []string) {
 	json.NewEncoder(os.Stdout).Encode(sum)
 }
 
-var frags = [][]byte{{'a'}, {'b'}, {0}, {' '}, {0xC3, 0xA9}, {0xE2, 0x80, 0xA8}, {0xF0, 0x9F, 0x98, 0x80}, {0xFF}, {0x80}, {'x', 'y', 'z'}}
+var frags = [][]byte{{'a'}, {'b'}, {0}, {' '}, {0xC3, 0xA9}, {0xE2, 0x80, 0xA8}, {0xF0, 0x9F, 0x98, 0x80}, {0xFF}, {0x80}, {'x', 'y', 'z'},
+	{0xC2, 0x80}, {0xDF, 0xBF}, {0xE0, 0xA0, 0x80}, {0xED, 0x9F, 0xBF}, {0xEE, 0x80, 0x80}, {0xEF, 0xBF, 0xBF}, {0xF0, 0x90, 0x80, 0x80}, {0xF4, 0x8F, 0xBF, 0xBF}}
 
 // Record drives random contract-respecting histories over random reader schedules.
 func Record(args []string) {
